@@ -47,6 +47,9 @@ def _phim(x):
 def _case(draw):
     closure = draw(st.sampled_from(["MOST", "MOST", "MOSTM", "CONSTANT", "OAAHOC"]))
     zm = draw(gen.logfl(1.0, 50.0))
+    int_typed = draw(st.integers(0, 3)) == 0  # measurement height in whole metres given as an int, n as a NumPy integer
+    if int_typed:
+        zm = int(max(1, round(zm)))
     stab = draw(st.sampled_from(["neutral", "stable", "unstable", "unstable", "near-neutral", "neutral-inf"]))
     if stab == "neutral":
         mol = 1e9
@@ -65,7 +68,7 @@ def _case(draw):
     ang = draw(st.one_of(gen.fl(0.0, 2 * math.pi), st.sampled_from([0.0, 0.5 * math.pi, math.pi, 1.5 * math.pi])))
     wind = [speed * math.cos(ang), speed * math.sin(ang)]
     n = draw(st.one_of(st.integers(2, 30), st.integers(2, 300)))
-    case = {"closure": closure, "zm": zm, "mol": mol, "wind": wind, "n": n, "stab": stab,
+    case = {"closure": closure, "zm": zm, "mol": mol, "wind": wind, "n": n, "stab": stab, "int_typed": int_typed,
             "prsc": draw(st.sampled_from([1.0, 1.0, 0.7, 1.35])),
             "forcing": draw(st.sampled_from(["z0", "ustar"])), "z0": z0}
     if closure == "OAAHOC":
@@ -95,7 +98,7 @@ def strategy(tier):
 def _call(case, forcing=None, **override):
     from bldfm.pbl_model import vertical_profiles
 
-    kw = dict(n=case["n"], meas_height=case["zm"], wind=tuple(case["wind"]), mol=float(case["mol"]), closure=case["closure"],
+    kw = dict(n=np.int64(case["n"]) if case.get("int_typed") else case["n"], meas_height=case["zm"], wind=tuple(case["wind"]), mol=float(case["mol"]), closure=case["closure"],
               prsc=case["prsc"])
     f = forcing or case["forcing"]
     if f == "z0":
@@ -120,7 +123,7 @@ def check_case(case):
     um, vm = case["wind"]
     U = math.hypot(um, vm)
     custom = "stretch" in case
-    out.label("closure=" + cl, "stab=" + case["stab"], "forcing=" + case["forcing"], "grid=custom" if custom else "grid=default",
+    out.label("zm=int" if isinstance(case["zm"], int) else "zm=float", "closure=" + cl, "stab=" + case["stab"], "forcing=" + case["forcing"], "grid=custom" if custom else "grid=default",
               "n>30" if n > 30 else "n<=30")
     try:
         z, (u, v, Kx, Ky, Kz) = _call(case)
